@@ -694,6 +694,11 @@ def union_summary(fn):
             for st in stmts:
                 if isinstance(st, ast.Assign) and len(st.targets) == 1 and isinstance(st.targets[0], ast.Name) and st.targets[0].id == name:
                     v = st.value
+                    # name = name + [e, ...]  (a new, longer list; possibly under a guard)
+                    if inited and isinstance(v, ast.BinOp) and isinstance(v.op, ast.Add) and unparse(v.left) == name and isinstance(v.right, ast.List) \
+                            and not any(isinstance(x, ast.Starred) for x in v.right.elts):
+                        out.extend(("item", x, guard) for x in v.right.elts)
+                        continue
                     if inited or guard is not None:
                         return False
                     inited = True
@@ -706,6 +711,8 @@ def union_summary(fn):
                     elif isinstance(v, ast.BinOp) and isinstance(v.op, ast.Add):
                         out.append(("iter", unparse(v.left)))
                         out.append(("iter", unparse(v.right)))
+                    elif isinstance(v, (ast.Attribute, ast.Name)):
+                        out.append(("iter", unparse(v)))  # an existing sequence (it is only read here)
                     else:
                         return False
                 elif isinstance(st, ast.Expr) and isinstance(st.value, ast.Call) and isinstance(st.value.func, ast.Attribute) \
@@ -731,6 +738,49 @@ def union_summary(fn):
         if not walk(body, None) or not inited:
             return None
         return out
+
+    def set_list_sources(name):
+        got = set()
+        inited = False
+
+        def walk(stmts, guard):
+            nonlocal inited
+            for st in stmts:
+                if isinstance(st, ast.Assign) and len(st.targets) == 1 and isinstance(st.targets[0], ast.Name) and st.targets[0].id == name:
+                    if inited or guard is not None:
+                        return False
+                    inited = True
+                    v = st.value
+                    if isinstance(v, ast.ListComp):
+                        g, flt = comp(v, None)
+                        if g is None:
+                            return False
+                        got.add(("each", unparse(g.iter), sub(v.elt, g.target.id), flt))
+                    elif isinstance(v, ast.List):
+                        for x in v.elts:
+                            if isinstance(x, ast.Starred):
+                                return False
+                            got.add(("one", unparse(x), None))
+                    else:
+                        return False
+                elif isinstance(st, ast.Expr) and isinstance(st.value, ast.Call) and isinstance(st.value.func, ast.Attribute) \
+                        and unparse(st.value.func.value) == name and st.value.func.attr == "append" and len(st.value.args) == 1:
+                    got.add(("one", unparse(st.value.args[0]), guard))
+                elif isinstance(st, ast.If):
+                    g_ = unparse(st.test)
+                    if not walk(st.body, g_ if guard is None else f"{guard} and {g_}") or \
+                            not walk(st.orelse, f"not ({g_})" if guard is None else f"{guard} and not ({g_})"):
+                        return False
+                elif isinstance(st, (ast.For, ast.While, ast.Try, ast.With)):
+                    if any(isinstance(n, ast.Name) and n.id == name for n in ast.walk(st)):
+                        return False
+                elif any(isinstance(n, ast.Name) and n.id == name and isinstance(n.ctx, ast.Store) for n in ast.walk(st)):
+                    return False
+            return True
+
+        if not walk(body, None) or not inited:
+            return None
+        return got
 
     def ev(e, guard):
         if isinstance(e, ast.Call):
@@ -773,6 +823,12 @@ def union_summary(fn):
                                         out.add(("one", unparse(one).replace("__ITEM__", unparse(src[1])), src[2]))
                             else:
                                 out.add(("each", unparse(g.iter), sub(inner.elt, g.target.id), flt))
+                        elif isinstance(inner, ast.Name):
+                            # *L with L a local list of SETS: [E(v) for v in I] grown by .append(S) under optional guards
+                            got = set_list_sources(inner.id)
+                            if got is None:
+                                return None
+                            out |= got
                         else:
                             return None
                     else:
